@@ -470,8 +470,47 @@ func c10L3(r *Run) {
 				break
 			}
 		}
+		// ... or every caller establishes it: each call of the method is dominated by a checkAvailable of the same
+		// connection whose error was found nil (the precondition moved to the callers, for every caller)
+		callersCheck := func() bool {
+			n := 0
+			for _, f := range pkgFuncs(p, "kmipclient") {
+				okAll := true
+				allInstrs(f, func(in ssa.Instruction) {
+					c, ok := in.(*ssa.Call)
+					if !ok || c.Call.StaticCallee() != fn {
+						return
+					}
+					n++
+					found := false
+					allInstrs(f, func(i2 ssa.Instruction) {
+						chk, ok := i2.(*ssa.Call)
+						if !ok || !callID(&chk.Call).is(cliPath, "conn", "checkAvailable") || !dominatesInstr(chk, c) {
+							return
+						}
+						if len(chk.Call.Args) == 0 || len(c.Call.Args) == 0 || chk.Call.Args[0] != c.Call.Args[0] {
+							return
+						}
+						for _, dc := range dominatingConds(c.Block()) {
+							if bo, ok := dc.cond.(*ssa.BinOp); ok && bo.X == ssa.Value(chk) && isNilConst(bo.Y) && (bo.Op == token.EQL) == dc.outcome {
+								found = true
+							}
+						}
+					})
+					if !found {
+						okAll = false
+					}
+				})
+				if !okAll {
+					return false
+				}
+			}
+			return n > 0
+		}
 		if first {
 			r.OK("C10.L3", key, fn.Pos(), "%s starts with checkAvailable", m)
+		} else if callersCheck() {
+			r.OK("C10.L3", key, fn.Pos(), "every call of %s follows a successful checkAvailable of the same connection", m)
 		} else {
 			r.Bad("C10.L3", key, fn.Pos(), "conn.%s does not start with checkAvailable: a closed or torn-down connection can still be used", m)
 		}
